@@ -217,6 +217,12 @@ func (m *Message) ensureData(ctx context.Context, needed int) error {
 	return nil
 }
 
+// atEndOfMessage reports whether the end-of-message frame has been read and every
+// buffered byte consumed, i.e. no further value can follow in this message.
+func (m *Message) atEndOfMessage() bool {
+	return m.isEOM && m.buffer.Len() == 0
+}
+
 // IsEncode returns true if in encode mode
 func (m *Message) IsEncode() bool {
 	return m.direction == CodingEncode
